@@ -1,7 +1,7 @@
 (* Property C08 -- "Numeric field text conversions are exact inverses".
    Only theorem statements: each is closed by [exact] of a lemma proved in C08/NumIntProofs.v or
    C08/NumFloatProofs.v and followed by Print Assumptions.
-   Models: itoa_int / itoa_uint / fast_atoi (NumInt.v), modp_dtoa / fast_atof (NumFloat.v);
+   Models: itoa_int / itoa_uint / fast_atoi (NumInt.v; fast_atoi as repaired by /repo commit a8219b1), modp_dtoa / fast_atof (NumFloat.v);
    specification: canon_dec, c08_int_ok, c08_atoi_ok, c08_float_ok ... (Spec_C08.v). *)
 From Coq Require Import ZArith List Bool Reals.
 From Flocq Require Import IEEE754.BinarySingleNaN.
@@ -30,77 +30,51 @@ Theorem c08_canon_dec_denotes : forall v, Z.abs v < 10 ^ 25 -> canon_value (cano
 Proof. exact canon_dec_denotes_lemma. Qed.
 Print Assumptions c08_canon_dec_denotes.
 
-(* Non-negative int32: Field<int> print then parse is the identity, i.e. the property's oracle
-   accepts the model's round trip. *)
-Theorem c08_atoi_itoa_nonneg : forall v, 0 <= v < 2147483648 ->
-  int_roundtrip v = Some (canon_dec v, v) /\ c08_int_ok v (canon_dec v) v = true.
-Proof. exact int_roundtrip_nonneg_ok_lemma. Qed.
-Print Assumptions c08_atoi_itoa_nonneg.
+(* THE INTEGER HALF OF THE PROPERTY, at full strength (fast_atoi as repaired by a8219b1):
+   every int32 v -- INT_MIN and INT_MAX included -- is rendered by itoa<int> as its canonical
+   decimal text and fast_atoi<int> parses that text back to v WITHOUT any undefined operation
+   (AR_ok: in the overflow-checked model every retval * 10 and every +/- ( *str - '0' ) stays inside
+   int: non-negative numbers are accumulated upwards, negative ones downwards so that INT_MIN
+   parses); the property's oracle accepts the round trip. *)
+Theorem c08_atoi_itoa : forall v, -2147483648 <= v < 2147483648 ->
+  int_roundtrip v = Some (canon_dec v, AR_ok v) /\
+  c08_int_strict_ok v (canon_dec v) (Some v) = true.
+Proof. exact int_roundtrip_lemma. Qed.
+Print Assumptions c08_atoi_itoa.
 
 (* Every uint32 round-trips through itoa<unsigned> / fast_atoi<unsigned>. *)
-Theorem c08_atoi_utoa : forall v, 0 <= v < 4294967296 -> uint_roundtrip v = Some (canon_dec v, v).
+Theorem c08_atoi_utoa : forall v, 0 <= v < 4294967296 -> uint_roundtrip v = Some (canon_dec v, AR_ok v).
 Proof. exact uint_roundtrip_lemma. Qed.
 Print Assumptions c08_atoi_utoa.
 
-(* Parser clause on ARBITRARY text for the unsigned parsers (tags, lengths, sequence numbers):
-   whenever the text is the canonical decimal of a value of the type, that value is returned. *)
-Theorem c08_atoi_unsigned_any_text : forall text,
-  c08_atoi_ok 0 4294967295 text (fast_atoi T_uint 0 text) = true /\
-  c08_atoi_ok 0 65535 text (fast_atoi T_ushort 0 text) = true.
-Proof. exact atoi_unsigned_any_text_lemma. Qed.
-Print Assumptions c08_atoi_unsigned_any_text.
+(* Parser clause on ARBITRARY text, for the three instantiations used by fix8 (Field<int>; tags,
+   lengths, sequence numbers): whenever the text is the canonical decimal of a value of the type,
+   that value is returned -- for int without undefined operation.  (Nothing is claimed for other
+   texts: there is still no digit test.) *)
+Theorem c08_atoi_any_text : forall text,
+  c08_atoi_ok (-2147483648) 2147483647 text (ar_opt (fast_atoi T_int 0 text)) = true /\
+  c08_atoi_ok 0 4294967295 text (ar_opt (fast_atoi T_uint 0 text)) = true /\
+  c08_atoi_ok 0 65535 text (ar_opt (fast_atoi T_ushort 0 text)) = true.
+Proof. exact atoi_any_text_lemma. Qed.
+Print Assumptions c08_atoi_any_text.
 
-(* fast_atoi<int> meets the parser clause on every text that does not denote a negative int. *)
-Theorem c08_atoi_int_partial : forall text,
-  match canon_value text with Some v => 0 <=? v | None => true end = true ->
-  c08_atoi_ok (-2147483648) 2147483647 text (fast_atoi T_int 0 text) = true.
-Proof. exact atoi_int_ok_partial_lemma. Qed.
-Print Assumptions c08_atoi_int_partial.
+(* The routine as it was BEFORE the repair violated the property (witnesses; the repaired routine
+   is right on the same inputs): no sign handling, "-5" -> -25 and a shift of a negative value ... *)
+Theorem c08_atoi_neg_orig_refuted :
+  itoa_int (-5) 10 = Some [45; 53] /\ fast_atoi_orig [45; 53] = -25 /\
+  fast_atoi_checked_orig [45; 53] = AC_shift_negative /\
+  fast_atoi T_int 0 [45; 53] = AR_ok (-5).
+Proof. exact atoi_neg_orig_refuted_lemma. Qed.
+Print Assumptions c08_atoi_neg_orig_refuted.
 
-(* Negative int32: the property FAILS.  fast_atoi has no sign handling; the text "-d1..dk" is
-   read as the number with leading "digit" -3, i.e. -v - 3*10^k wrapped to 32 bits ... *)
-Theorem c08_atoi_neg_characterised : forall v, -2147483648 <= v < 0 ->
-  int_roundtrip v = Some (canon_dec v, sint32 (- v - 3 * 10 ^ dlen (- v))).
-Proof. exact int_roundtrip_neg_lemma. Qed.
-Print Assumptions c08_atoi_neg_characterised.
-
-(* ... which differs from v for every negative int32 except -2115098112 (where the wrap-around
-   happens to land on the value). *)
-Theorem c08_atoi_neg_refuted : forall v r t, -2147483648 <= v < 0 -> v <> -2115098112 ->
-  int_roundtrip v = Some (t, r) -> r <> v.
-Proof. exact int_roundtrip_neg_wrong_lemma. Qed.
-Print Assumptions c08_atoi_neg_refuted.
-
-(* --- the same parse under the C++ rules (what a build without -fwrapv / with UBSan observes):
-   fast_atoi_checked flags a left shift of a negative value and any signed overflow of
-   ((retval << 3) + (retval << 1) + *str) - '0', evaluated left to right. *)
-
-(* [0, 2147483600): no rule is broken and the value comes back. *)
-Theorem c08_atoi_checked_partial : forall v, 0 <= v < 2147483600 ->
-  int_roundtrip_checked v = Some (canon_dec v, AC_ok v) /\
-  c08_int_strict_ok v (canon_dec v) (Some v) = true.
-Proof. exact int_roundtrip_checked_ok_lemma. Qed.
-Print Assumptions c08_atoi_checked_partial.
-
-(* [2147483600, INT_MAX]: the property FAILS -- the last digit's character code is added before
-   '0' is subtracted, 10*(v/10) + 48 + d > INT_MAX: signed integer overflow (undefined). *)
-Theorem c08_atoi_top_overflow_refuted : forall v, 2147483600 <= v < 2147483648 ->
-  int_roundtrip_checked v = Some (canon_dec v, AC_overflow).
-Proof. exact int_roundtrip_checked_top_lemma. Qed.
-Print Assumptions c08_atoi_top_overflow_refuted.
-
-(* every negative int32: the '-' leaves retval = -3 which is then shifted left (undefined). *)
-Theorem c08_atoi_neg_shift_refuted : forall v, -2147483648 <= v < 0 ->
-  int_roundtrip_checked v = Some (canon_dec v, AC_shift_negative).
-Proof. exact int_roundtrip_checked_neg_lemma. Qed.
-Print Assumptions c08_atoi_neg_shift_refuted.
-
-(* the checked parser refines the wrapping one (used for all the theorems above): whenever no
-   rule is broken both return the same value, on every text. *)
-Theorem c08_atoi_checked_refines : forall str v,
-  fast_atoi_checked str = AC_ok v -> fast_atoi T_int 0 str = Some v.
-Proof. exact checked_refines_lemma. Qed.
-Print Assumptions c08_atoi_checked_refines.
+(* ... and the digit's character code was added before '0' was subtracted: signed overflow on the
+   text of INT_MAX (of every int from 2147483600 on). *)
+Theorem c08_atoi_top_overflow_orig_refuted :
+  itoa_int 2147483647 10 = Some [50; 49; 52; 55; 52; 56; 51; 54; 52; 55] /\
+  fast_atoi_checked_orig [50; 49; 52; 55; 52; 56; 51; 54; 52; 55] = AC_overflow /\
+  fast_atoi T_int 0 [50; 49; 52; 55; 52; 56; 51; 54; 52; 55] = AR_ok 2147483647.
+Proof. exact atoi_top_overflow_orig_refuted_lemma. Qed.
+Print Assumptions c08_atoi_top_overflow_orig_refuted.
 
 (* ================================================================================== doubles *)
 
@@ -215,7 +189,7 @@ Print Assumptions c08_dtoa_prec0_correct.
    theorem (as -2147483647 - 1 is outside the latter, its neighbour is used there). *)
 Theorem c08_nonvacuous :
   itoa_int (-2147483648) 10 = Some [45; 50; 49; 52; 55; 52; 56; 51; 54; 52; 56] /\
-  int_roundtrip 2147483647 = Some ([50; 49; 52; 55; 52; 56; 51; 54; 52; 55], 2147483647) /\
+  int_roundtrip (-2147483648) = Some ([45; 50; 49; 52; 55; 52; 56; 51; 54; 52; 56], AR_ok (-2147483648)) /\
   fst (float_roundtrip (f_of_Z (-2147483647)) 9) =
     DT_text [45; 50; 49; 52; 55; 52; 56; 51; 54; 52; 55; 46; 48].
 Proof. exact c08_nonvacuous_lemma. Qed.
